@@ -66,6 +66,17 @@ def _installed(*a):
     return "installed-at-run-time"
 
 
+def need_actions(res, names, module):
+    """vacuity: every named action generated states (TLC adds a location suffix to actions used in several places)"""
+    import re
+    cov = {}
+    for name, g in re.findall(r"(?m)^<(\w+) line \d+, col \d+ to line \d+, col \d+ of module \w+(?: \([\d ]+\))?>: \d+:(\d+)", res.out):
+        cov[name] = cov.get(name, 0) + int(g)
+    for a in names:
+        if not cov.get(a):
+            raise MachineryError("vacuous: action %s of %s never taken (%s)" % (a, module, cov))
+
+
 def lam(tok):
     return "(lambda *a: %r)" % tok
 
@@ -473,7 +484,7 @@ def part_recorded(run):
 
 
 # --------------------------------------------------------------------------- part 2: the context object
-HELPERS = ("show", "showkw", "hold", "held")
+HELPERS = ("show", "showkw", "hold", "held", "mk", "mutate")
 MAKO_CTX_NAMES = {"capture", "caller", "self", "local", "parent", "next", "pageargs"}
 DATA = ("x", "y", "new")
 
@@ -568,17 +579,48 @@ def part_reserved(run):
     run.negative_control(obs != "corrupted:" + c["outcome"], "reserved comparer accepted a corrupted outcome")
 
 
-def history_template(hist):
-    t = ""
+class Tagged:
+    """an object of the body with an identity (k), an equality class (cls) and in-place state (mut):
+    two Tagged objects of one class are EQUAL but distinct, like 1 and 1.0 or two fresh [] lists"""
+
+    def __init__(self, k, cls):
+        self.k, self.cls, self.mut = k, cls, []
+
+    def __eq__(self, other):
+        return isinstance(other, Tagged) and (self.cls, self.mut) == (other.cls, other.mut)
+
+    def __hash__(self):
+        return hash(self.cls)
+
+
+def _tag(obs):
+    import re
+    m = re.match(r"L(\d+):c(\d+):m(\d+)$", obs)
+    if not m:
+        raise MachineryError("not an object tag: %r" % (obs,))
+    return int(m.group(1)), int(m.group(2)), int(m.group(3))
+
+
+def history_template(hist, paged=False):
+    t = "<%page args=\"x=None, y=None\"/>\n" if paged else ""
     for n in ("x", "y"):
+        t += "<%%def name=\"rdt_%s()\">${show(%s)}</%%def>\n" % (n, n)      # referenced only in control lines
+        t += "<%%def name=\"rda_%s()\">${show(%s)}</%%def>\n" % (n, n)      # referenced only in anonymous blocks
         t += "<%%def name=\"rd_%s()\">${show(%s)}</%%def>\n" % (n, n)
         t += "<%%def name=\"rdc_%s()\">${show(%s)}</%%def>\n" % (n, n)      # referenced only inside <%%call> bodies
         t += "<%%def name=\"asg_%s()\"><%% %s = 'D' %%>${show(%s)}</%%def>\n" % (n, n, n)
     t += "<%def name=\"kwd()\"><% kk = context.kwargs\nhold(kk) %>${showkw(kk)}</%def>\n<%def name='wr()'>${caller.body()}</%def>\n"
     for h in hist:
         op, n = h["op"], h["n"]
-        if op == "assign":
-            t += "<%% %s = %r %%>${show(%s)}" % (n, h["obs"], n)
+        if op in ("assign", "assign_equal"):
+            k, cls, _ = _tag(h["obs"])          # which object the specification binds: identity k of class cls
+            t += "<%% %s = mk(%d, %d) %%>${show(%s)}" % (n, k, cls, n)
+        elif op == "mutate_local":
+            t += "<%% mutate(%s) %%>${show(%s)}" % (n, n)
+        elif op == "read_byname_ctl":
+            t += "%% if rdt_%s() is not None:\n%% endif\n" % n
+        elif op == "read_byname_anon":
+            t += "<%%block>${rda_%s()}</%%block>" % n
         elif op == "read_ctx":
             t += "${show(context.get(%r, UNDEFINED))}" % n
         elif op == "read_selfdef":
@@ -618,7 +660,7 @@ def _proj(d, own=True):
     return sorted(out)
 
 
-def run_history(c):
+def run_history(c, rng=None):
     """render the behaviour; returns the list of observations in the spec's shape"""
     import json
     import re
@@ -626,8 +668,35 @@ def run_history(c):
     from mako.runtime import Context, UNDEFINED
     box = {}
 
+    reg, alive = {}, []
+    mutated = {_tag(h["obs"])[1] for h in c["hist"] if h["op"] == "mutate_local"}
+    members = {}
+    numeric = rng is not None and rng.random() < 0.5
+
+    def mk(k, cls):
+        # members of a class never mutated may be numbers of different types: 101 == 101.0 == Fraction(101) == Decimal(101)
+        import decimal
+        import fractions
+        i = members.setdefault(cls, 0)
+        members[cls] += 1
+        fam = [int, float, fractions.Fraction, decimal.Decimal]
+        o = fam[i](100 + cls) if (numeric and cls not in mutated and i < len(fam)) else Tagged(k, cls)
+        alive.append(o)
+        reg[id(o)] = (k, cls)
+        return o
+
+    def mutate(o):
+        o.mut.append(1)
+        return ""
+
     def show(v):
-        return "NONE" if v is UNDEFINED else (v if isinstance(v, str) else "OTHER:%r" % (v,))
+        if v is UNDEFINED:
+            return "NONE"
+        if v is None:
+            return "PNone"
+        if id(v) in reg and any(v is o for o in alive):
+            return "L%d:c%d:m%d" % (reg[id(v)] + (len(getattr(v, "mut", ())),))
+        return v if isinstance(v, str) else "OTHER:%r" % (v,)
 
     def showkw(d):
         return json.dumps(_proj(d, own=False))
@@ -638,16 +707,17 @@ def run_history(c):
 
     def held():
         return box["d"]
-    src = history_template(c["hist"])
+    paged = bool(c.get("paged"))
+    src = history_template(c["hist"], paged)
     args = {a: "A_" + a for a in c["args"]}
     given = dict(args)
-    given.update(show=show, showkw=showkw, hold=hold, held=held)
+    given.update(show=show, showkw=showkw, hold=hold, held=held, mk=mk, mutate=mutate)
     caller_copy = dict(given)
     try:
         t = Template(src)
         buf = io.StringIO()
         ctx = Context(buf, **given)
-        t.render_context(ctx)
+        t.render_context(ctx, **(args if paged else {}))       # page arguments receive the render arguments of their name
         parts = re.sub(r"\s+", "", buf.getvalue()).split("|")[:-1]
     except Exception as e:  # noqa
         return ["exc:%s:%s" % (type(e).__name__, str(e)[:60])], src
@@ -683,14 +753,15 @@ def expected_obs(c):
 
 def compare_history(run, c, source):
     exp = expected_obs(c)
-    obs, src = run_history(c)
+    obs, src = run_history(c, run.rng)
     run.traces += 1
     if obs == exp:
         return True
     i = next((k for k in range(min(len(exp), len(obs))) if exp[k] != obs[k]), min(len(exp), len(obs)))
     op = c["hist"][i]["op"] if i < len(c["hist"]) else "?"
     prev = [h["op"] for h in c["hist"][:i]]
-    feature = "after-kwmutate" if "kwmutate" in prev else "after-assign" if "assign" in prev else "plain"
+    feature = ("after-kwmutate" if "kwmutate" in prev else "after-assign_equal" if "assign_equal" in prev
+               else "after-mutate_local" if "mutate_local" in prev else "after-assign" if "assign" in prev else "plain")
     o = obs[i] if i < len(obs) else "missing"
     if isinstance(o, str) and o.startswith("exc:"):
         mode = ":".join(o.split(":")[:2])
@@ -711,9 +782,7 @@ def part_history(run):
     if res.violated:
         run.spec_violation(res)
         return
-    for a in ("Assign", "ReadCtx", "ReadSelfDef", "ReadByName", "DefAssign", "KwRead", "KwMutate", "End", "Report"):
-        if not res.coverage.get(a, [0, 0])[1]:
-            raise MachineryError("vacuous: action %s of ScopesCtx never taken" % a)
+    need_actions(res, ("Assign", "AssignEqual", "MutateLocal", "ReadCtx", "ReadSelfDef", "ReadByName", "DefAssign", "KwRead", "KwMutate", "End", "Report"), "ScopesCtx")
     import json
     beh = {}
     for c in res.json_lines():
@@ -748,7 +817,32 @@ def part_history(run):
             bad += 1
             if bad > 40:
                 break
-    run.extra["ctx_behaviours"] = {"exhaustive": len(beh), "simulated": len(sims)}
+    # rebinding histories, deeper: new / EQUAL new object / mutation in place between by-name def calls written in
+    # the body text, a call body, a control line, an anonymous block; with and without <%page> arguments
+    rdepth = 4
+    cfg = 'CONSTANTS Family = "rebind" Depth = %d\nSPECIFICATION Spec\n' % rdepth + CTX_INVS
+    res = run.tlc("ScopesCtx", cfg, name="mc-rebind", workers=4, coverage=True, timeout=900)
+    if res.violated:
+        run.spec_violation(res)
+        return
+    need_actions(res, ("Assign", "AssignEqual", "MutateLocal", "ReadByName"), "ScopesCtx (rebind)")
+    reb = {}
+    for c in res.json_lines():
+        if isinstance(c, dict) and "hist" in c and c.get("outcome") == "ok":
+            c["args"] = sorted(c["args"])
+            ops = {h["op"].split("_")[0] + ("_" + h["op"].split("_")[1] if h["op"].startswith(("assign_", "mutate_")) else "") for h in c["hist"]}
+            # quick: ({}, no page args) and ({x}, page args); histories with a by-name call and a rebinding / mutation
+            # (the others are the business of the history family)
+            if run.thorough or (bool(c["args"]) == bool(c["paged"]) and "read" in ops and ops & {"assign_equal", "mutate_local"}):
+                reb[json.dumps([c["args"], c["paged"], c["hist"]], sort_keys=True)] = c
+    if len(reb) < 800 or not any(h["op"] == "assign_equal" for c in reb.values() for h in c["hist"]):
+        raise MachineryError("rebind family printed only %d behaviours" % len(reb))
+    for k in sorted(reb):
+        if not compare_history(run, reb[k], "rebind depth %d" % rdepth):
+            bad += 1
+            if bad > 40:
+                break
+    run.extra["ctx_behaviours"] = {"exhaustive": len(beh), "simulated": len(sims), "rebind": len(reb)}
     ks = sorted(sims)
     if ks:
         run.sample({"part": "context-history", "behaviour": sims[ks[0]], "template": history_template(sims[ks[0]]["hist"])}, limit=4)
